@@ -21,10 +21,10 @@ import (
 
 var (
 	cacheMu sync.Mutex
-	cache   = map[string][]Input{}
+	cache   = map[string][]Lazy{}
 )
 
-func cached(key string, f func() []Input) []Input {
+func cached(key string, f func() []Lazy) []Lazy {
 	cacheMu.Lock()
 	defer cacheMu.Unlock()
 	if l, ok := cache[key]; ok {
@@ -41,10 +41,10 @@ func inputsFor(class string, thorough bool) (n int, get func(i int) Input) {
 		n = byteStringCount(map[bool]int{false: 5, true: 6}[thorough])
 		return n, func(i int) Input { return Input{"bytes", fmt.Sprintf("bytes/%d", i), byteString(i)} }
 	case "structured":
-		l := cached(fmt.Sprint("structured", thorough), func() []Input { return Structured(thorough) })
-		return len(l), func(i int) Input { return l[i] }
+		l := cached(fmt.Sprint("structured", thorough), func() []Lazy { return Structured(thorough) })
+		return len(l), func(i int) Input { return l[i].Input() }
 	case "huge":
-		l := cached("huge", Huge)
+		l := Huge()
 		return len(l), func(i int) Input { return l[i] }
 	}
 	return 0, nil
@@ -399,7 +399,7 @@ func Run(r *core.Run) {
 	}
 	mu.Unlock()
 	r.Extra["inputs_per_finding_key"] = counts
-	st := cached(fmt.Sprint("structured", false), func() []Input { return Structured(false) })
-	r.Sample(map[string]any{"class": "structured", "desc": st[100].Desc, "kind": st[100].Kind, "input": clip(st[100].Data)})
+	st := cached(fmt.Sprint("structured", false), func() []Lazy { return Structured(false) })
+	r.Sample(map[string]any{"class": "structured", "desc": st[100].Desc, "kind": st[100].Kind, "input": clip(st[100].Make())})
 	r.Sample(map[string]any{"class": "bytes", "examples": []string{string(byteString(3000)), string(byteString(77777)), string(byteString(500000))}})
 }
